@@ -35,6 +35,7 @@ func init() {
 type c15Input struct {
 	ID     string `json:"id"`
 	Target string `json:"target"` // decoder name or "ep-recv" / "ep-send"
+	Again  bool   `json:"again,omitempty"` // replay of an input whose first run did not return
 	Class  string `json:"class"`  // stable class of the input (for finding keys)
 	Hex    string `json:"hex"`    // decoder input, or control-stream bytes for endpoints
 	Data   string `json:"data,omitempty"` // endpoints: data-stream bytes (hex)
@@ -60,6 +61,9 @@ type c15Result struct {
 	TimedOut  bool   `json:"timed_out,omitempty"`
 	Returned  bool   `json:"returned"`
 	CanaryOK  bool   `json:"canary_ok,omitempty"`
+	// Reproduced: the endpoint also failed to return when the same input was
+	// replayed once more on a fresh connection
+	Reproduced bool `json:"reproduced,omitempty"`
 	Dump      string `json:"dump,omitempty"`
 	ReturnedNil bool `json:"returned_nil,omitempty"`
 	// endpoints: what the script observed
@@ -731,6 +735,15 @@ func c15RunEndpoint(lp *vk.ListenerPool, in c15Input, work string) (res c15Resul
 			t0 := time.Now()
 			cres := c15RunEndpoint(lp2(lp), c15Input{Target: in.Target, Class: "canary", Hex: os.Getenv("C15_CANARY_" + in.Target), Data: os.Getenv("C15_CANARY_DATA")}, work)
 			res.CanaryOK = cres.Returned && time.Since(t0) < 5*time.Second
+			// an endpoint that blocks on this input blocks on it again: the
+			// same input once more, on a fresh connection (a datagram lost on an
+			// overloaded machine does not repeat itself)
+			if res.CanaryOK && !in.Again {
+				again := in
+				again.Again = true
+				ares := c15RunEndpoint(lp2(lp), again, work)
+				res.Reproduced = ares.TimedOut
+			}
 		}
 	}
 	res.ChunkStored = chunkStored.Load()
@@ -1407,6 +1420,11 @@ func runC15(e *Env) {
 			outcomes["timeout"]++
 			if !res.CanaryOK {
 				e.R.Inconcl(id + ": endpoint did not return within 10 s but the canary case did not either (machine stalled)")
+				continue
+			}
+			if in.NoRead == nil && !res.Reproduced {
+				outcomes["timeout-not-reproduced"]++
+				e.R.Inconcl(id + ": endpoint did not return within 10 s, but returned when the same input was replayed on a fresh connection (transport stall on a loaded machine?)")
 				continue
 			}
 			if in.NoRead != nil {
